@@ -385,6 +385,13 @@ impl<T: Elem> Hist<T> {
                     }
                 }
             }
+            if cfg.tags_mode && !list.is_empty() && rng.chance(1, 4) {
+                // The same key and value twice on one sample (tags are a multiset:
+                // both copies have to come out).
+                let twin = list[rng.below(list.len())].clone();
+                list.push(twin);
+                rep.count("twin_tags_committed", 1);
+            }
             if cfg.tags_mode && rng.chance(1, 3) {
                 // Tags of samples that are not part of this commit (blocks pass the
                 // tags of their whole window while committing part of it): they
